@@ -54,6 +54,18 @@ class C18(Prop):
                   'function f() { return {"x": 1, "y": 2, "x": 3, "x": 4}; } return f();', 'if (true) { h = {1: "a", 1: "b", "1": "c"}; } return h;', 'return {1.5: 1, 1.5: 2, 1.50: 3};',
                   'foreach k, v in {"a": 1, "a": 2, "b": 3} { t(k, v); } return 1;', 'return len({"a": {"i": 1, "i": 2}, "a": 5});']:
             add(s, "repeated-keys")
+        # ONE evaluator prepared again and again with DIFFERENT scripts (the Script field is public) that share some constants and not
+        # others: every program must be well formed and be the program of ITS script
+        RE = ["return 70000 * 3.5 + y;", "x = 10; name = \"steve\"; if (name ~= /^st/) { return x; } return \"no\";", "y = 3.5; return [70000, \"steve\", y, x];",
+              "function f(a) { return a + 70000; } return f(3.5) + len(\"steve\");", "return {\"steve\": 3.5, \"x\": 70000, \"y\": name};",
+              "foreach name in [\"no\", \"steve\"] { x = name; } return x;", "return 3.5;", "switch (name) { case \"steve\" { return 70000; } default { return y; } }"]
+        for _ in range(400 if tier == "thorough" else 40):
+            seq = [rng.choice(RE) if rng.random() < 0.7 else gen.Gen(rng, max_depth=2).program(nstmts=rng.randint(1, 4), nfuncs=rng.randint(0, 1), depth=1) for _ in range(rng.randint(2, 4))]
+            ops = ["prepare:" + rng.choice(["opt", "noopt"]), "exec:0"]
+            for nxt in seq[1:]:
+                ops += ["rescript:" + vlib.hx(nxt), "prepare:" + rng.choice(["opt", "noopt"]), "exec:0"]
+            f = gen.struct_case(rng, seq[0], ops)
+            out.append(Case("run", f, "re-prepared", note=" ||| ".join(seq)))
         for s in VALUELESS:
             # a construct that leaves no value, used where a value is needed: Prepare must refuse it
             for mode in ("opt", "noopt"):
@@ -90,7 +102,7 @@ class C18(Prop):
             g = go.get(c.cid)
             if not g:
                 continue
-            for k in ("o2.prog", "o2.uprog"):
+            for k in sorted(kk for kk in g if kk.endswith(".prog") or kk.endswith(".uprog")):      # every Prepare of the history
                 p = g.get(k)
                 if p and p != "UNOPT-REJECTED" and len(p) < 600000:
                     cid = "V%d" % len(lines)
